@@ -236,6 +236,13 @@ def _exec_case(case):
             s = float(m0.input_scale.detach().to(torch.float64))
             if float(last_batch.to(torch.float64).abs().max()) > s * G * (1 + 4 * u) + G * gen.ETA[dtype]:
                 out.fail("single-batch/input-saturates", f"{n0}: after one calibration batch the batch's own absmax exceeds input_scale * {G}")
+            # ... nor does its raw output saturate the output grid
+            x_in = quantize_activation(last_batch, aq, m0.input_scale.detach()).dequantize()
+            raw, bound = raw64(m0, x_in)
+            so = float(m0.output_scale.detach().to(torch.float64))
+            extra = scale_product_term(m0, m0.input_scale.detach().to(torch.float64), x_in, dtype)
+            if float(raw.abs().max()) > so * G * (1 + 4 * u) + float(bound.max()) + extra + G * gen.ETA[dtype]:
+                out.fail("single-batch/output-saturates", f"{n0}: after one calibration batch the raw output's absmax {float(raw.abs().max()):.6g} exceeds output_scale * {G} = {so * G:.6g}")
     out.fingerprint = [case["model"], case["aq"], case["wq"], case["dtype"], [(c["m"], c["streamline"], c["batches"]) for c in case["contexts"]]]
     big = len(mags) >= 2 and max(mags) > 2 * min(mags)
     out.nontrivial = (big and any(m != 0.9 for m in momenta)) or ("-" in case["model"] and nb >= 2) or len(case["contexts"]) >= 2
